@@ -226,13 +226,18 @@ class StubPly:
         return Location(self.filename, self.i)
 
 
+# every literal class of the lexer takes a user-defined-literal suffix (reference list: the statement's literal kinds)
+REF_UDL_TYPES = ["FLOAT_CONST", "HEX_FLOAT_CONST", "INT_CONST_HEX", "INT_CONST_BIN", "INT_CONST_OCT", "INT_CONST_DEC", "INT_CONST_CHAR", "CHAR_CONST", "WCHAR_CONST",
+                 "U8CHAR_CONST", "U16CHAR_CONST", "U32CHAR_CONST", "STRING_LITERAL", "WSTRING_LITERAL", "U8STRING_LITERAL", "U16STRING_LITERAL", "U32STRING_LITERAL"]
+
+
 def s_make(kinds):
     vals = {"NEWLINE": "\n", "\\": "\\", "INT_CONST_DEC": "1", "NAME_": "_k", "NAME": "x", "WHITESPACE": " ", ";": ";",
             "STRING_LITERAL": '"s"', "__inline": "__inline"}
     out = []
     for j, k in enumerate(kinds):
         ty = "NAME" if k == "NAME_" else k
-        out.append(StubTok(ty, vals[k], j + 1))
+        out.append(StubTok(ty, vals.get(k, "0"), j + 1))
     return out
 
 
@@ -240,7 +245,7 @@ def s_reference(kinds):
     """one call of _fill_tokbuf on a fresh buffer: (list of (type, value), tokens consumed)"""
     from cxxheaderparser.lexer import LexerTokenStream
 
-    udl = LexerTokenStream._user_defined_literal_start
+    udl = set(REF_UDL_TYPES)
     vals = [(t.type, t.value) for t in s_make(kinds)]
     out = []
     i = 0
@@ -537,6 +542,19 @@ def run(tier):
         res = chrun.run(__name__, "h_fill", shards, timeout=(150 if tier == "quick" else 1200), globs=g, pool=pool)
         chrun.record(ck, res, "layer S: _fill_tokbuf vs reference over all raw token strings", bound=f"<= {g['S_MAXTOK']} tokens over {len(S_KINDS)} kinds")
         globals()["S_MAXTOK"] = g["S_MAXTOK"]
+        # user-defined-literal fusion for every literal class (the enumeration above uses two representatives)
+        udl_bad = []
+        for ty in REF_UDL_TYPES:
+            for follow in ("NAME_", "NAME", ";"):
+                b_ = s_judge([ty, follow, "NEWLINE"])
+                ck.traces += 1
+                if b_ is not None:
+                    udl_bad.append((ty, follow, b_))
+        ck.sub("layer S: every literal class fuses with a following _suffix name into one UD_ token, and only with that", "replay", "holds" if not udl_bad else "flagged",
+               classes=len(REF_UDL_TYPES))
+        for ty, follow, b_ in udl_bad[:3]:
+            body = ("from vf.props import c08\n" f"bad = c08.s_judge([{ty!r}, {follow!r}, 'NEWLINE'])\nprint(bad)\nsys.exit(1 if bad else 0)\n")
+            ck.violation(f"_fill_tokbuf on [{ty}, {follow}]: {b_}", ck.write_replay(body), key=dict(kind="udl-class", ty=ty))
         seen = set()
         for shard, args, kw, msg in res.counterexamples:
             kinds, bad = s_replay(list(shard) + list(args))
